@@ -533,16 +533,31 @@ def durations(ctx):
             m.update(vals["own_lat"], vals["own_lon"], vals["own_speed"], vals["own_heading"])
             after = (m._state, m._join_substate, m._leave_substate)
             el = vals["now"] - t0 >= dur
-            changed = after != before
+            # the phase under test is the join sub-state, the leave sub-state or the leader state, depending on which timer runs
+            idx = {"join_started": 1, "jl_started": 1, "leave_started": 2, "breakup_started": 0}[started]
+            changed = after[idx] != before[idx]
             # the phase under test must end iff its duration has elapsed
             return (el and not changed) or (not el and changed and name != "leave-notification" and name != "join-notification" and False), \
                 f"{name}: started {vals['now'] - t0:.3f} s ago (duration {dur} s): {[x.value for x in before]} -> {[x.value for x in after]}"
+        def replay_early(vals, h=h, name=name, started=started, dur=dur):
+            """real manager in the model's state: before the duration has elapsed update() must leave the phase running"""
+            m, clock = h.real(vals)
+            if real_inv(m):
+                return False, "inconsistent pre-state"
+            key = {"join_started": "_join_started", "jl_started": "_join_leave_started", "leave_started": "_leave_started"}.get(started)
+            t0 = m._cluster.breakup_started if started == "breakup_started" else getattr(m, key)
+            before = (m._state, m._join_substate, m._leave_substate)
+            m.update(vals["own_lat"], vals["own_lon"], vals["own_speed"], vals["own_heading"])
+            after = (m._state, m._join_substate, m._leave_substate)
+            early = vals["now"] - t0 < dur
+            idx = {"join_started": 1, "jl_started": 1, "leave_started": 2, "breakup_started": 0}[started]
+            return early and after[idx] != before[idx], f"{name}: started {vals['now'] - t0:.3f} s ago (duration {dur} s): {[x.value for x in before]} -> {[x.value for x in after]}"
         ctx.witness(f"{name}-reach-ended", I, z3.And(pre, elapsed, z3.Not(exc)), vars=vars_)
         ctx.prove(f"{name}-no-exception", I, z3.And(pre, exc), vars=vars_, replay=replay)
         ctx.prove(f"{name}-ends-when-duration-elapsed", I, z3.And(pre, elapsed, z3.Not(ended(h))), vars=vars_, replay=replay,
                   desc=f"{name}: at the first update() at or after {dur} s the phase is over")
         ctx.prove(f"{name}-lasts-its-duration", I, z3.And(pre, z3.Not(elapsed), z3.Not(still(h))), vars=vars_,
-                  replay=lambda vals, rp=replay, name=name: (True, f"{name} ended before its duration had elapsed") if True else rp(vals),
+                  replay=lambda vals, rp=replay_early: rp(vals),
                   desc=f"{name}: before {dur} s have elapsed update() leaves the phase running")
     ctx.bound("each notification / waiting phase from an arbitrary consistent state in that phase; start time and clock symbolic reals")
 
